@@ -112,3 +112,9 @@ theories/Rehash/PackProofs.vos theories/Rehash/PackProofs.vok theories/Rehash/Pa
 theories/Properties_C05.vo theories/Properties_C05.glob theories/Properties_C05.v.beautified theories/Properties_C05.required_vo: theories/Properties_C05.v theories/Rehash/Pack.vo theories/Rehash/PackProofs.vo
 theories/Properties_C05.vio: theories/Properties_C05.v theories/Rehash/Pack.vio theories/Rehash/PackProofs.vio
 theories/Properties_C05.vos theories/Properties_C05.vok theories/Properties_C05.required_vos: theories/Properties_C05.v theories/Rehash/Pack.vos theories/Rehash/PackProofs.vos
+theories/OpenMode/OpenMode.vo theories/OpenMode/OpenMode.glob theories/OpenMode/OpenMode.v.beautified theories/OpenMode/OpenMode.required_vo: theories/OpenMode/OpenMode.v 
+theories/OpenMode/OpenMode.vio: theories/OpenMode/OpenMode.v 
+theories/OpenMode/OpenMode.vos theories/OpenMode/OpenMode.vok theories/OpenMode/OpenMode.required_vos: theories/OpenMode/OpenMode.v 
+theories/Properties_C13.vo theories/Properties_C13.glob theories/Properties_C13.v.beautified theories/Properties_C13.required_vo: theories/Properties_C13.v theories/OpenMode/OpenMode.vo
+theories/Properties_C13.vio: theories/Properties_C13.v theories/OpenMode/OpenMode.vio
+theories/Properties_C13.vos theories/Properties_C13.vok theories/Properties_C13.required_vos: theories/Properties_C13.v theories/OpenMode/OpenMode.vos
